@@ -697,6 +697,44 @@ pub mod unit {
                 ret matches Err(e) ==> e == ManifestIdValidationError::AddressNotFound(a),
         @*/
     }
+
+    // ---- client scenarios: the contracts above are strong enough to decide concrete manifests ----
+    /// "nothing is consumed twice" + "a bucket with a live proof cannot be consumed", end to end
+    /// through the real functions (checked statically from their contracts only).
+    pub fn scenario_lifecycle() {
+        let mut v = BasicManifestValidator::new();
+        let b = v.new_bucket();
+        let p = match v.new_proof(ProofKind::BucketProof(b)) { Ok(p) => p, Err(_) => { assert(false); return; } };
+        let q = match v.clone_proof(&p) { Ok(q) => q, Err(_) => { assert(false); return; } };
+        assert(p != q);
+        // locked while either proof is live
+        let r = v.drop_bucket(&b);
+        assert(r == Err::<(), _>(ManifestIdValidationError::BucketLocked(b)));
+        let r = v.drop_proof(&p);
+        assert(r is Ok);
+        proof { assert(v.proof_ids@.contains_key(q) && v.proof_ids@[q] == ProofKind::BucketProof(b)); }
+        let r = v.drop_bucket(&b);
+        assert(r is Err);
+        // a consumed proof cannot be consumed or cloned again
+        let r = v.drop_proof(&p);
+        assert(r == Err::<(), _>(ManifestIdValidationError::ProofNotFound(p)));
+        let r = v.clone_proof(&p);
+        assert(r is Err);
+        let r = v.drop_all_named_proofs();
+        assert(r is Ok);
+        // now unlocked: consumed once, and only once
+        let r = v.drop_bucket(&b);
+        assert(r is Ok);
+        let r = v.drop_bucket(&b);
+        assert(r == Err::<(), _>(ManifestIdValidationError::BucketNotFound(b)));
+        let r = v.new_proof(ProofKind::BucketProof(b));
+        assert(r is Err);
+        // a fresh bucket never reuses the consumed id
+        let b2 = v.new_bucket();
+        assert(b2 != b);
+        let r = v.check_bucket(&b);
+        assert(r is Err);
+    }
 }
 } // verus!
 fn main() {}
